@@ -184,7 +184,7 @@ def ops_module(idx, n, kind, entry, ops=None, generic=False, bounds=None):
         if kind == "named":
             return "T { %s }" % ", ".join("f%d: %s" % (j, a) for j, a in enumerate(args))
         return "T(%s)" % ", ".join(args)
-    acc = ["t.f%d.0.clone()" % j for j in range(n)] if kind == "named" else ["t.%d.0.clone()" % j for j in range(n)]
+    acc = ["::std::string::String::from(t.f%d.0.as_str())" % j for j in range(n)] if kind == "named" else ["::std::string::String::from(t.%d.0.as_str())" % j for j in range(n)]
     lines.append("    fn show(t: &%s) -> String { let v: Vec<String> = vec![%s]; ::dx_support::json_strs(&v) }" % (TT, ", ".join(acc)))
     lines.append("    pub fn run() -> String {\n        let mut out = String::new();")
 
@@ -296,7 +296,7 @@ def implop_module(idx, op, base, rhs_self, want_bin, want_assign, base_is_assign
 # ------------------------------------------------------------------------------------------------
 FLAGS = ["{:?}", "{:#?}", "{:5?}", "{:<8?}", "{:>8?}", "{:^8?}", "{:*^10?}", "{:+?}", "{:.1?}", "{:x?}", "{:X?}", "{:#x?}", "{:08.2?}",
          "{:#10?}", "{:+.3?}", "{:#<6?}", "{:02?}"]
-LEAF_TYPES = [("i32", ["7", "-3"]), ("f64", ["1.5", "-0.25"]), ("&'static str", ["\"hi\"", "\"a b\""]), ("::core::option::Option<i32>", ["Some(4)", "None"]),
+LEAF_TYPES = [("i32", ["7", "-3"]), ("f64", ["1.5", "-0.25"]), ("&'static str", ["\"hi\"", "\"a b\""]), ("::core::option::Option<i32>", ["::core::option::Option::Some(4)", "::core::option::Option::None"]),
               ("Inner", ["Inner { p: 1, q: -2 }"]), ("(u8, bool)", ["(3, true)"]), ("::std::vec::Vec<u8>", ["vec![1, 2]", "vec![]"])]
 INNER = "#[derive(Debug, Clone)] pub struct Inner { pub p: i32, pub q: i32 }"
 
@@ -317,7 +317,8 @@ def debug_module(idx, desc, entry, rnd):
             ty = LEAF_TYPES[f["ty"]][0] if not (gen and f.get("gen")) else "G"
             if twin and ty == "Inner":
                 ty = "super::Inner"
-            fs.append(at + (("%s: " % f["name"]) if v["shape"] == "named" else "") + ty)
+            vis = "pub " if kind == "struct" else ""
+            fs.append(at + vis + (("%s: " % f["name"]) if v["shape"] == "named" else "") + ty)
         if v["shape"] == "named":
             return "{ " + ", ".join(fs) + " }"
         if v["shape"] == "tuple":
@@ -358,7 +359,7 @@ def debug_module(idx, desc, entry, rnd):
             tf = [(f, x) for f, x in zip(v["fields"], vals) if f["dbg"] == "transparent"]
             cmp_target = None
             if len(tf) == 1:
-                lines.append("            let tr = %s;" % tf[0][1])
+                lines.append("            let tr: %s = %s;" % (LEAF_TYPES[tf[0][0]["ty"]][0], tf[0][1]))
                 cmp_target = "tr"
             else:
                 cmp_target = "t"
@@ -369,9 +370,7 @@ def debug_module(idx, desc, entry, rnd):
             # leaves
             leafs = []
             for f, x in zip(v["fields"], vals):
-                leafs.append("format!(\"{{{{\\\"name\\\":{},\\\"dbg\\\":\\\"%s\\\",\\\"leaf\\\":{},\\\"alt\\\":{}}}}}\", ::dx_support::json_str(\"%s\").len().min(0).to_string().replace(\"0\", &format!(\"\\\"{}\\\"\", \"%s\")), "
-                             "format!(\"\\\"{}\\\"\", ::dx_support::json_str(&format!(\"{:?}\", %s))), lines(&format!(\"{:#?}\", %s)))"
-                             % (f["dbg"], f["name"], f["name"] if v["shape"] == "named" else "", x, x))
+                leafs.append("::dx_support::dbg_field(\"%s\", \"%s\", &({ let v: %s = %s; v }))" % (f["name"] if v["shape"] == "named" else "", f["dbg"], LEAF_TYPES[f["ty"]][0], x))
             lines.append("            let fields: Vec<String> = vec![%s];" % ", ".join(leafs))
             lines.append("            out.push_str(&format!(\"{{\\\"id\\\":%d,\\\"ev\\\":\\\"debug\\\",\\\"name\\\":\\\"%s\\\",\\\"named\\\":%s,\\\"fields\\\":[{}],\\\"plain\\\":\\\"{}\\\",\\\"alt\\\":{},\\\"twin_equal\\\":{},\\\"diff\\\":\\\"{}\\\",\\\"rejected\\\":false}}\\n\", "
                          "fields.join(\",\"), ::dx_support::json_str(&format!(\"{:?}\", x)), lines(&format!(\"{:#?}\", x)), twin_equal, ::dx_support::json_str(&diff)));"
@@ -385,7 +384,7 @@ def debug_module(idx, desc, entry, rnd):
 # C11 Default
 # ------------------------------------------------------------------------------------------------
 DV_SRC = {"none": None, "str": "\"abc\"", "path": "::dx_support::SRC7", "assoc_path": "::dx_support::Holder::SRC3",
-          "call": "::dx_support::mk(5)", "block": "{ ::dx_support::mk(6) }", "method": "::dx_support::mk(4).clone()"}
+          "call": "::dx_support::mk(5)", "block": "{ ::dx_support::mk(6) }", "method": "::dx_support::mk(4).same()"}
 
 
 def default_module(idx, P, entry):
@@ -449,7 +448,7 @@ def default_module(idx, P, entry):
             pat = "%s(%s)" % (path, ", ".join("g%d" % j for j in range(n)))
         else:
             pat = path
-        lines.append("        %s => (%d, vec![%s])," % (pat, vi + 1, ", ".join("g%d.0.clone()" % j for j in range(n))))
+        lines.append("        %s => (%d, vec![%s])," % (pat, vi + 1, ", ".join("::std::string::String::from(g%d.0.as_str())" % j for j in range(n))))
     lines.append("    } }")
     lines.append("""    pub fn run() -> String {
         let d = <T as ::core::default::Default>::default();
@@ -676,21 +675,23 @@ C12_SPECIAL = [
         let eq_equal = ::dx_support::table_eq(&a) == ::dx_support::table_eq(&b);
         let pcmp_equal = ::dx_support::table_pcmp(&a) == ::dx_support::table_pcmp(&b) && ::dx_support::table_ops(&a) == ::dx_support::table_ops(&b);
         format!("{{\\"id\\":IDX,\\"nvals\\":6,\\"debug_equal\\":{},\\"eq_equal\\":{},\\"pcmp_equal\\":{},\\"diff\\":\\"\\"}}\\n", debug_equal, eq_equal, pcmp_equal)"""),
-    ("param_H_state", ["Clone", "Debug", "Default", "PartialEq", "Eq", "PartialOrd", "Ord", "Hash"], "pub struct T<H, __H = u8>(pub H, pub ::core::marker::PhantomData<__H>);",
+    ("param_H_state", ["Clone", "Debug", "Default", "PartialEq", "Eq", "PartialOrd", "Ord", "Hash"], "pub struct T<H, K = u8>(pub H, pub ::core::marker::PhantomData<K>);",
      """let a = vec![dx::T::<u8>(1, ::core::marker::PhantomData), dx::T::<u8>(2, ::core::marker::PhantomData)];
         let b = vec![sd::T::<u8>(1, ::core::marker::PhantomData), sd::T::<u8>(2, ::core::marker::PhantomData)];
         let debug_equal = a.iter().zip(b.iter()).all(|(x, y)| format!("{:?}", x) == format!("{:?}", y));
         let eq_equal = ::dx_support::table_eq(&a) == ::dx_support::table_eq(&b);
         let cmp_equal = ::dx_support::table_cmp(&a) == ::dx_support::table_cmp(&b);
+        let pcmp_equal = ::dx_support::table_pcmp(&a) == ::dx_support::table_pcmp(&b);
         let hash_consistent = ::dx_support::law_eq_hash(&a) == -1;
-        format!("{{\\"id\\":IDX,\\"nvals\\":2,\\"debug_equal\\":{},\\"eq_equal\\":{},\\"cmp_equal\\":{},\\"hash_consistent\\":{},\\"diff\\":\\"\\"}}\\n", debug_equal, eq_equal, cmp_equal, hash_consistent)"""),
+        format!("{{\\"id\\":IDX,\\"nvals\\":2,\\"debug_equal\\":{},\\"eq_equal\\":{},\\"cmp_equal\\":{},\\"pcmp_equal\\":{},\\"hash_consistent\\":{},\\"diff\\":\\"\\"}}\\n", debug_equal, eq_equal, cmp_equal, pcmp_equal, hash_consistent)"""),
     ("raw_names", ["Clone", "Debug", "Default", "PartialEq", "Eq", "PartialOrd", "Ord", "Hash"], "pub struct r#T { pub r#type: u8, pub r#fn: bool }",
      """let a = vec![dx::T { r#type: 1, r#fn: true }, dx::T { r#type: 2, r#fn: false }]; let b = vec![sd::T { r#type: 1, r#fn: true }, sd::T { r#type: 2, r#fn: false }];
         let mut diff = String::new();
         let debug_equal = a.iter().zip(b.iter()).all(|(x, y)| { let (p, q) = (format!("{:?}", x), format!("{:?}", y)); if p != q { diff = format!("{} vs {}", p, q); } p == q });
         let eq_equal = ::dx_support::table_eq(&a) == ::dx_support::table_eq(&b);
         let cmp_equal = ::dx_support::table_cmp(&a) == ::dx_support::table_cmp(&b);
-        format!("{{\\"id\\":IDX,\\"nvals\\":2,\\"debug_equal\\":{},\\"eq_equal\\":{},\\"cmp_equal\\":{},\\"diff\\":\\"{}\\"}}\\n", debug_equal, eq_equal, cmp_equal, ::dx_support::json_str(&diff))"""),
+        let pcmp_equal = ::dx_support::table_pcmp(&a) == ::dx_support::table_pcmp(&b);
+        format!("{{\\"id\\":IDX,\\"nvals\\":2,\\"debug_equal\\":{},\\"eq_equal\\":{},\\"cmp_equal\\":{},\\"pcmp_equal\\":{},\\"diff\\":\\"{}\\"}}\\n", debug_equal, eq_equal, cmp_equal, pcmp_equal, ::dx_support::json_str(&diff))"""),
     ("raw_enum_names", ["Clone", "Debug", "PartialEq"], "pub enum T { r#match { r#loop: u8 }, r#Self_(u8), r#type }",
      """let a = vec![dx::T::r#match { r#loop: 1 }, dx::T::r#Self_(2), dx::T::r#type]; let b = vec![sd::T::r#match { r#loop: 1 }, sd::T::r#Self_(2), sd::T::r#type];
         let mut diff = String::new();
